@@ -76,7 +76,15 @@ class RouteSuite(Suite):
                 cfg = self.yaml(t).encode().hex()
                 kinds = "".join("N" if typ == "forge-nxdomain" else "F" for _, typ, _ in t)
                 for q in names:
-                    out.append("route cfg=%s kinds=%s q=%s rd=%s" % (cfg, kinds, lab(q), rng.choice("1110")))
+                    rd = rng.choice("1110")
+                    line = "route cfg=%s kinds=%s q=%s rd=%s" % (cfg, kinds, lab(q), rd)
+                    if rd == "1" and rng.random() < 0.25:
+                        # the same question twice in a row with these CD/AD/DO bits: the second may come from the cache
+                        # only under the same (name, type, DO, CD)
+                        b = "".join(rng.choice("01") for _ in range(3))
+                        b2 = b if rng.random() < 0.3 else "".join(rng.choice("01") for _ in range(3))
+                        line += " bits=%s bits2=%s" % (b, b2)
+                    out.append(line)
         return out[:n]
 
     def nontrivial(self, inp, obs):
